@@ -378,3 +378,20 @@ Proof. unfold changeTimelineTimescale. rewrite !map_map. repeat split. Qed.
 
 Lemma scale_exact_ms ts t : scale_exact ts 1000 t = rep2SubsTime_exact t ts.
 Proof. reflexivity. Qed.
+
+(** on the millisecond grid scaling is linear: the k-th segment of an S element (t, d, r) starts at
+    scale t + k * scale d, so the subtitle timeline lists exactly the video segment starts in ms *)
+Lemma exact_grid_linear t d n ts : 0 < ts -> 0 <= t -> 0 <= d -> 0 <= n ->
+  (t * 1000) mod ts = 0 -> (d * 1000) mod ts = 0 ->
+  rep2SubsTime_exact (t + n * d) ts = rep2SubsTime_exact t ts + n * rep2SubsTime_exact d ts.
+Proof.
+  intros Hts Ht Hd Hn Gt Gd.
+  assert (Gs : ((t + n * d) * 1000) mod ts = 0).
+  { replace ((t + n * d) * 1000) with (t * 1000 + n * (d * 1000)) by ring.
+    apply Z.mod_divide; [lia|]. apply Z.divide_add_r; [apply Z.mod_divide; [lia|exact Gt]|].
+    apply Z.divide_mul_r. apply Z.mod_divide; [lia|exact Gd]. }
+  rewrite !rep2SubsTime_exact_grid by (try assumption; nia).
+  apply Z.mod_divide in Gt; [|lia]. apply Z.mod_divide in Gd; [|lia].
+  destruct Gt as [a Ha], Gd as [b Hb].
+  replace ((t + n * d) * 1000) with ((a + n * b) * ts) by nia. rewrite Ha, Hb, !Z.div_mul by lia. reflexivity.
+Qed.
